@@ -35,7 +35,9 @@ pub struct ServerCase {
     pub idle_ms: u64,
     /// 0: drop the server at the end with nothing outstanding; 1: drop it while a request is
     /// held by the application, answer afterwards; 2: as 1, with a second pipelined request of
-    /// the same connection still queued at the time of the drop
+    /// the same connection still queued at the time of the drop; 3 / 4: nothing held, but a request
+    /// that ends its connection (3: `Connection: close`, 4: HTTP/1.0) is queued, unreceived, at the
+    /// time of the drop
     pub drop_mode: u8,
     /// handlers wait on their requests: nobody answers before as many requests as there are
     /// application threads (or all of the burst) are held at the same time
@@ -54,7 +56,7 @@ pub fn server_strategy(max_burst: usize, for_c20: bool) -> BoxedStrategy<ServerC
         1usize..=2,
         1usize..=2,
         if for_c20 { prop_oneof![1 => Just(0u64), 3 => Just(6000u64), 1 => Just(5200u64)].boxed() } else { prop_oneof![3 => Just(0u64), 1 => Just(6000u64)].boxed() },
-        0u8..3,
+        0u8..5,
         tape_strategy(300),
         (proptest::collection::vec(prop_oneof![3 => Just(0u8), 1 => Just(1u8), 1 => Just(2u8), 1 => Just(3u8)], 1..3), prop_oneof![3 => Just(0usize), 1 => 1usize..4]),
     )
@@ -357,7 +359,30 @@ pub fn run_server_case(prop: &'static str, case: &ServerCase) -> Verdict {
                 return;
             }
         };
-        if c.drop_mode >= 1 {
+        if c.drop_mode >= 3 {
+            // a request that ends its connection (Connection: close / HTTP/1.0 without keep-alive) has
+            // been parsed and queued, nobody has received it, and the server goes: the connection's
+            // worker must not stay behind
+            let cl = listener.connect().expect("connect before drop");
+            let wire: &[u8] = if c.drop_mode == 3 { b"GET /r9997 HTTP/1.1\r\nHost: h\r\nConnection: close\r\n\r\n" } else { b"GET /r9997 HTTP/1.0\r\n\r\n" };
+            cl.send(wire);
+            let mut spins = 0;
+            while cl.consumed() < wire.len() && spins < 200 {
+                rt::thread::yield_now();
+                spins += 1;
+            }
+            for _ in 0..3 {
+                rt::thread::yield_now();
+            }
+            ph.store(32, Ordering::SeqCst);
+            drop(server);
+            ph.store(33, Ordering::SeqCst);
+            if listener.connect().is_ok() {
+                viol("accepting-after-drop", "connect succeeded after the server had been dropped".into());
+            }
+            rt::thread::sleep(Duration::from_millis(100));
+            cl.close_write();
+        } else if c.drop_mode >= 1 {
             // a request handed to the application before the drop is still answered afterwards
             let cl = listener.connect().expect("connect before drop");
             let wire: &[u8] = if c.drop_mode == 2 { b"GET /r9999 HTTP/1.1\r\nHost: h\r\n\r\nGET /r9998 HTTP/1.1\r\nHost: h\r\n\r\n" } else { b"GET /r9999 HTTP/1.1\r\nHost: h\r\n\r\n" };
